@@ -660,7 +660,7 @@ def model_states(cases: List[Dict[str, Any]]) -> List[Any]:
     for r in cases:
         ops = "[" + "; ".join(r["model_ops"]) + "]"
         exprs.append(f"map show (trace (init ({r['hist']['t0']}) 0) {ops})")
-    return coq_eval_batched(exprs, preamble=SHOW, chunk=8)
+    return coq_eval_batched(exprs, preamble=SHOW, chunk=8 if len(exprs) <= 400 else 24)
 
 
 def compare_history(r: Dict[str, Any], model: Any) -> Optional[Dict[str, Any]]:
@@ -800,12 +800,39 @@ def _mk_snaps(ids_parents: List[Tuple[int, Any]]):
     return [Snapshot(snapshot_id=i, timestamp_ms=0, manifest_list="", parent_snapshot_id=p) for i, p in ids_parents]
 
 
+class RepointHang(Exception):
+    pass
+
+
 def real_repoint(ids_parents: List[Tuple[int, Any]], kept_mask: int) -> List[Any]:
     from datashard.snapshot_manager import repoint_parents_to_surviving_ancestors
     allsn = _mk_snaps(ids_parents)
     kept = [s for k, s in enumerate(allsn) if kept_mask >> k & 1]
     repoint_parents_to_surviving_ancestors(allsn, kept)
     return [s.parent_snapshot_id for s in kept]
+
+
+def real_repoint_row(fam: List[Tuple[int, Any]]) -> List[Any]:
+    """The real function on every kept subset of one parent map; a walk that does not come back within 2 s
+    (cyclic map, missing guard) is reported as ('hang', mask) instead of blocking the check."""
+    import signal
+
+    def on_alarm(_sig, _frm):
+        raise RepointHang()
+
+    old = signal.signal(signal.SIGALRM, on_alarm)
+    row: List[Any] = []
+    mask = 0
+    try:
+        signal.setitimer(signal.ITIMER_REAL, 2.0)
+        for mask in range(1 << len(fam)):
+            row.append(real_repoint(fam, mask))
+    except RepointHang:
+        row.append(("hang", mask))
+    finally:
+        signal.setitimer(signal.ITIMER_REAL, 0)
+        signal.signal(signal.SIGALRM, old)
+    return row
 
 
 def _popt(p: Any) -> str:
@@ -828,7 +855,7 @@ def forest_families(ctx) -> List[List[Tuple[int, Any]]]:
             fams.append([(i + 1, p) for i, p in enumerate(ps)])
     # (c) duplicated snapshot ids (corrupt metadata): the dict comprehension keeps the LAST binding
     for n in ((2, 3, 4) if ctx.tier == "thorough" else (2, 3)):
-        for idsq in itertools.product([1, 2, 3], repeat=n):
+        for idsq in itertools.product([1, 2, 3] if n < 4 else [1, 2], repeat=n):
             if len(set(idsq)) == n:
                 continue
             for ps in itertools.product([None, -1, 1, 2, 3], repeat=n):
@@ -836,20 +863,51 @@ def forest_families(ctx) -> List[List[Tuple[int, Any]]]:
     return fams
 
 
+_FOREST_CACHE: Dict[str, Any] = {}
+
+
+def forest_rows(ctx) -> Tuple[List[List[Tuple[int, Any]]], List[List[Any]]]:
+    if "rows" not in _FOREST_CACHE:
+        fams = forest_families(ctx)
+        _FOREST_CACHE["fams"] = fams
+        _FOREST_CACHE["rows"] = [real_repoint_row(f) for f in fams]
+    return _FOREST_CACHE["fams"], _FOREST_CACHE["rows"]
+
+
+def expected_links(fam: List[Tuple[int, Any]], mask: int) -> Optional[List[Any]]:
+    """Independent judgement for one case (unique ids only): for each survivor, the first kept id on its chain of
+    parent links; nothing (None / -1 as found) if the chain ends first; None if the chain cycles first."""
+    ids = [i for i, _ in fam]
+    if len(set(ids)) != len(ids):
+        return None
+    par = dict(fam)
+    kept_ids = {fam[k][0] for k in range(len(fam)) if mask >> k & 1}
+    out = []
+    for k in range(len(fam)):
+        if not mask >> k & 1:
+            continue
+        chain: List[int] = []
+        p = fam[k][1]
+        while True:
+            if p is None or p == -1 or p in kept_ids:
+                out.append(p)
+                break
+            if p in chain:
+                out.append(None)
+                break
+            chain.append(p)
+            p = par.get(p)
+    return out
+
+
 def corr_forests(ctx) -> None:
-    fams = forest_families(ctx)
-    exprs, impl = [], []
+    fams, impl = forest_rows(ctx)
+    exprs = []
     ncases = 0
-    cyc = 0
     for fam in fams:
-        n = len(fam)
         snaps = "[" + "; ".join(f"mk {i} {_popt(p)}" for i, p in fam) + "]"
         exprs.append(f"let al := {snaps} in map (fun kept => map parent (repoint_all al kept)) (subsets al)")
-        row = []
-        for mask in range(1 << n):
-            row.append(real_repoint(fam, mask))
-        impl.append(row)
-        ncases += 1 << n
+        ncases += 1 << len(fam)
     pre = ("Definition mk (i : Z) (p : option Z) : snap := {| sid := i; ts := 0; parent := p; seq := 0; mlist := [] |}.\n"
            "(* subsets in the order of the bit mask: element k is kept iff bit k of the index is set *)\n"
            "Fixpoint subsets {A} (l : list A) : list (list A) := match l with [] => [[]] | x :: r => "
@@ -857,9 +915,10 @@ def corr_forests(ctx) -> None:
     got = coq_eval_batched(exprs, preamble=pre, chunk=250)
     bad = []
     for fam, row, g in zip(fams, impl, got):
-        n = len(fam)
-        # model order: subsets built from the tail -> index bits: element 0 is the LOWEST bit
-        for mask in range(1 << n):
+        for mask in range(1 << len(fam)):
+            if mask >= len(row) or isinstance(row[mask], tuple):
+                bad.append({"snapshots": fam, "kept_mask": mask, "impl": "does not terminate", "model": repr(g[mask])})
+                break
             exp = [None if p is None else Some(p) for p in row[mask]]
             if _plain(g[mask]) != _plain(exp):
                 bad.append({"snapshots": fam, "kept_mask": mask, "impl": row[mask], "model": repr(g[mask])})
@@ -871,46 +930,37 @@ def corr_forests(ctx) -> None:
     ctx.sample({"forest_case": {"snapshots": fams[len(fams) // 2], "all_kept_subsets": True}})
 
 
+def forest_case_problem(fam: List[Tuple[int, Any]], mask: int, got: Any) -> Optional[str]:
+    if isinstance(got, tuple):
+        return f"repoint on {fam} with kept mask {mask} does not terminate"
+    exp = expected_links(fam, mask)
+    if exp is not None and got != exp:
+        return f"repoint on {fam} with kept mask {mask}: survivors got parents {got}, nearest surviving ancestors are {exp}"
+    return None
+
+
 def oracle_forests(ctx) -> None:
-    """Implementation-only: on every enumerated map/kept pair the real function terminates and leaves each
-    survivor with nothing or a kept id reachable by parent links; on acyclic chains, the NEAREST kept one."""
-    fams = forest_families(ctx)
+    """Implementation-only: on every enumerated map/kept pair the real function terminates and leaves each survivor
+    with nothing or the NEAREST kept id on its chain of parent links (None when the chain cycles first)."""
+    fams, rows = forest_rows(ctx)
     n_cases = 0
-    for fam in fams:
-        ids = [i for i, _ in fam]
-        if len(set(ids)) != len(ids):
-            continue   # duplicated ids: no reading of "ancestor" to judge against
-        par = dict(fam)
-        for mask in range(1 << len(fam)):
+    reported = 0
+    for fam, row in zip(fams, rows):
+        for mask, got in enumerate(row):
             n_cases += 1
-            kept_ids = {fam[k][0] for k in range(len(fam)) if mask >> k & 1}
-            out = real_repoint(fam, mask)
-            for (sid_, p0), r in zip([fam[k] for k in range(len(fam)) if mask >> k & 1], out):
-                # independent walk: first kept id on the chain, None if the chain ends or cycles first
-                chain, p, expect = [], p0, None
-                while True:
-                    if p is None or p == -1:
-                        expect = p
-                        break
-                    if p in kept_ids:
-                        expect = p
-                        break
-                    if p in chain:
-                        expect = None
-                        break
-                    chain.append(p)
-                    p = par.get(p)
-                if r != expect:
-                    ctx.violation("repoint-wrong", f"repoint on {fam} kept {sorted(kept_ids)}: snapshot {sid_} got parent {r}, nearest surviving ancestor is {expect}",
-                                  {"kind": "forest", "snapshots": fam, "kept_mask": mask})
+            msg = forest_case_problem(fam, mask, got)
+            if msg and reported < 5:
+                reported += 1
+                key = "repoint-hang" if isinstance(got, tuple) else "repoint-wrong"
+                ctx.violation(key, msg, {"kind": "forest", "snapshots": fam, "kept_mask": mask})
     ctx.count(n_cases)
     ctx.stats["forest_oracle_cases"] = n_cases
 
 
 # ================================================================================== driver
 def check_histories(ctx) -> None:
-    nh = 150 if ctx.tier == "quick" else 2000
-    max_steps = 20 if ctx.tier == "quick" else 60
+    nh = 150 if ctx.tier == "quick" else 700
+    max_steps = 20 if ctx.tier == "quick" else 45
     hists = [gen_history(ctx.rng, max_steps) for _ in range(nh)]
     hists = CORPUS + hists
     results = run_histories(ctx, hists, "h")
@@ -974,8 +1024,9 @@ def check_histories(ctx) -> None:
     ctx.correspondence("histories", sum(len(r["observed"]) for r in cases), bad)
     # ---- lookups on the same states
     lk = [(r, k, e, a) for r in cases for (k, e, a) in r["lookups"]]
-    if ctx.tier == "quick" and len(lk) > 3000:
-        lk = ctx.rng.sample(lk, 3000)
+    cap = 3000 if ctx.tier == "quick" else 20000
+    if len(lk) > cap:
+        lk = ctx.rng.sample(lk, cap)
     by_case: Dict[int, List[Tuple[int, str, Any]]] = {}
     for r, k, e, a in lk:
         by_case.setdefault(id(r), []).append((k, e, a))
@@ -990,7 +1041,7 @@ def check_histories(ctx) -> None:
         answers.append([a for _k, _e, a in items])
         owners.append((r, items))
     try:
-        got = coq_eval_batched(exprs, preamble=SHOW, chunk=8)
+        got = coq_eval_batched(exprs, preamble=SHOW, chunk=8 if len(exprs) <= 400 else 24)
     except RuntimeError as e:
         ctx.proof_problems.append("model evaluation (lookups) failed: " + str(e)[:800])
         return
@@ -1058,10 +1109,14 @@ def run(ctx) -> None:
 def replay(ctx, payload) -> int:
     case = payload.get("case", {})
     if case.get("kind") == "forest":
+        patch_library()
         fam = [tuple(x) for x in case["snapshots"]]
-        print("replay: real repoint on", fam, "kept mask", case["kept_mask"], "->", real_repoint(fam, case["kept_mask"]))
-        ctx2_viol: List[Any] = []
-        return 1
+        row = real_repoint_row(fam)
+        mask = case["kept_mask"]
+        got = row[mask] if mask < len(row) else ("hang", mask)
+        msg = forest_case_problem(fam, mask, got)
+        print("replay:", "STILL FAILS " + msg if msg else f"passes now (survivors' parents {got})")
+        return 1 if msg else 0
     hist = case.get("history")
     if hist is None and "broken_correspondence" in payload:
         for name, ds in payload["broken_correspondence"].items():
